@@ -38,3 +38,8 @@ claim("C10",
  "Trusted: as C04. Known findings ('+', '-' first bytes and null/true/false written bare; pinned by the unedited test suite) are listed in KNOWN_FINDINGS.txt.",
  "static analysis: per-byte abstract interpretation of the writer vs constant reader tables (table agreement)",
  "DESIGN.md §3 Engine G, §4 C10")
+claim("C02",
+ "Static decision of structural clauses of 'values denote the text': no decimal accumulator update can wrap around (bound analysis with exact big-integer arithmetic on the guarding constants, including the borrowed Frac < Div invariant), escape and \\u tables are exact against RFC 8259 section 7 and every hex arm adds the digit's value (arm interpreted per digit), surrogate handling is present, and value/token events agree with the reference. The numeric value of results, AsNum's representation choice and decoded string contents beyond the tables are not decidable statically here and are not claimed.",
+ "Trusted: as C01. Known findings (no surrogate pairing in five front-ends) are listed in KNOWN_FINDINGS.txt. Found by probing, outside static reach and pinned by the test suite: the parsers' fast path returns 9223372036854775807 as json.Number/Big.",
+ "static analysis: guard-dominance bound analysis on multiply-accumulate sites, constant-table comparison against RFC 8259 section 7, per-digit abstract interpretation of the \\u arm, product event synchrony",
+ "DESIGN.md §4 C02")
